@@ -233,10 +233,37 @@ package silence
 //@   assigns s.st[*], s.mi[*], s.vi, s.vi[*], s.version
 //@   noeffect broadcast
 
-// validation is string/regexp level and outside the verified subset: only its frame is used
-//@ func validateSilence
+// validation of one matcher is string/regexp level and outside the verified subset (uninterpreted predicates);
+// validateSilence itself is verified: it upgrades the legacy matcher field, and accepts exactly the silences that have
+// at least one matcher set, whose every set is non-empty, all valid and not matching-everything, and whose start and
+// end are set with the end not before the start.
+//@ uf mValid(*pb.Matcher) bool
+//@ uf mEmpty(*pb.Matcher) bool
+//@ func validateMatcher
 //@   trusted
+//@   ensures (result == nil) == mValid(m)
 //@   assigns nothing
+//@ func matchesEmpty
+//@   trusted
+//@   ensures result == mEmpty(m)
+//@   assigns nothing
+//@ spec setOK(ms *pb.MatcherSet) bool = len(ms.Matchers) > 0 && (forall j int :: 0 <= j && j < len(ms.Matchers) ==> mValid(ms.Matchers[j]))
+//@     && (exists j int :: 0 <= j && j < len(ms.Matchers) && !mEmpty(ms.Matchers[j]))
+//@ spec silTimesOK(s *pb.Silence) bool = s.StartsAt != nil && tsT(s.StartsAt) != 0 && s.EndsAt != nil && tsT(s.EndsAt) != 0 && tsT(s.EndsAt) >= tsT(s.StartsAt)
+//@ func validateSilence
+//@   props C12
+//@   requires s != nil
+//@   assumes wfMatchers(s) && (forall j int :: 0 <= j && j < len(s.Matchers) ==> s.Matchers[j] != nil)
+//@   ensures [accepted-only-if-well-formed] result == nil ==> len(s.MatcherSets) > 0 && (forall i int :: 0 <= i && i < len(s.MatcherSets) ==> setOK(s.MatcherSets[i])) && silTimesOK(s)
+//@   ensures [well-formed-is-accepted] len(s.MatcherSets) > 0 && (forall i int :: 0 <= i && i < len(s.MatcherSets) ==> setOK(s.MatcherSets[i])) && silTimesOK(s) ==> result == nil
+//@   ensures [legacy-field-cleared] s.Matchers == nil
+//@   ensures [sets-kept] old(len(s.MatcherSets)) > 0 ==> s.MatcherSets == old(s.MatcherSets)
+//@   ensures [times-untouched] s.StartsAt == old(s.StartsAt) && s.EndsAt == old(s.EndsAt) && s.Id == old(s.Id)
+//@   loop 1 invariant wfMatchers(s) && rangeindex < len(s.MatcherSets) && (forall k int :: 0 <= k && k <= rangeindex ==> setOK(s.MatcherSets[k]))
+//@   loop 2 invariant wfMatchers(s) && rangeindex < len(ms.Matchers) && rangeindex1 + 1 < len(s.MatcherSets) && ms == s.MatcherSets[rangeindex1 + 1] && len(ms.Matchers) > 0
+//@   loop 2 invariant (forall k int :: 0 <= k && k <= rangeindex1 ==> setOK(s.MatcherSets[k])) && (forall j int :: 0 <= j && j <= rangeindex ==> mValid(ms.Matchers[j]))
+//@   loop 2 invariant allMatchEmpty == (forall j int :: 0 <= j && j <= rangeindex ==> mEmpty(ms.Matchers[j]))
+//@   assigns s.Matchers, s.MatcherSets, s.MatcherSets[*]
 //@ func (*Silences).checkSizeLimits
 //@   inline
 
@@ -275,7 +302,7 @@ package silence
 //@   at call validateSilence assert [start-defaulted-before-validation] sil.StartsAt != nil && tsT(sil.StartsAt) != 0
 //@   ensures [max-silences] result == nil && called("MaxSilences") && ret("MaxSilences") > 0 && !(called("canUpdate") && ret("canUpdate")) ==> len(s.st) <= ret("MaxSilences")
 //@   ensures [inv] storeInv(s)
-//@   assigns s.st[*], s.mi[*], s.vi, s.vi[*], s.version, sil.*
+//@   assigns s.st[*], s.mi[*], s.vi, s.vi[*], s.version, sil.*, sil.MatcherSets[*]
 //@   noeffect broadcast RecordEvent MaxSilences MaxSilenceSizeBytes
 
 // C12 / C02: garbage collection. Exactly the indexed silences whose retention has passed (or whose expiry is
@@ -383,9 +410,10 @@ package silence
 //@   props C11
 //@   requires sil != nil
 //@   ensures [legacy-cleared] len(sil.Matchers) == 0 && sil.Matchers == nil
-//@   ensures [multi-set-untouched] old(len(sil.MatcherSets)) > 0 ==> sil.MatcherSets == old(sil.MatcherSets)
+//@   ensures [multi-set-untouched] old(len(sil.MatcherSets)) > 0 ==> sil.MatcherSets == old(sil.MatcherSets) && (forall i int :: 0 <= i && i < len(sil.MatcherSets) ==> sil.MatcherSets[i] == old(sil.MatcherSets[i]))
 //@   ensures [nothing-to-upgrade-stays-empty] old(len(sil.MatcherSets)) == 0 && old(len(sil.Matchers)) == 0 ==> len(sil.MatcherSets) == 0
 //@   ensures [legacy-upgraded] old(len(sil.MatcherSets)) == 0 && old(len(sil.Matchers)) > 0 ==> len(sil.MatcherSets) == 1 && sil.MatcherSets[0] != nil && sil.MatcherSets[0].Matchers == old(sil.Matchers)
+//@   ensures [stays-well-formed] old(wfMatchers(sil)) && old(forall j int :: 0 <= j && j < len(sil.Matchers) ==> sil.Matchers[j] != nil) ==> wfMatchers(sil)
 //@   assigns sil.Matchers, sil.MatcherSets, sil.MatcherSets[*]
 
 // C11/C02/C12: loading a snapshot installs exactly the decoded silences whose matchers compile, each filed under
